@@ -50,18 +50,11 @@ Proof.
   eexists. eexists. split; [vm_compute; reflexivity|]. split; vm_compute; reflexivity.
 Qed.
 
-(* FULL forward-compatibility statement (refuted): an unknown key whose value fails the class's per-value
-   assertion makes from_json raise, although the same text without the key decodes *)
-Lemma forward_compat_refuted :
-  exists t t0 o, from_json VA cls_Capacities (Some t0) = Ok (Some o)
-    /\ from_json VA cls_Capacities (Some t) = Err e_type
-    /\ (exists d0 k v, jparse t0 = Some (JObj d0) /\ jparse t = Some (JObj (d0 ++ [(k, v)]))
-                       /\ ahas k (jc_fields cls_Capacities) = false).
-Proof.
-  exists (S"{""core"": 2, ""gpu_model"": ""A100""}"), (S"{""core"": 2}").
-  eexists. split; [vm_compute; reflexivity|]. split; [vm_compute; reflexivity|].
-  exists [(S"core", JInt 2)], (S"gpu_model"), (JStr (S"A100")). repeat split; vm_compute; reflexivity.
-Qed.
+(* the former counterexample to forward compatibility now decodes like the text without the unknown key *)
+Lemma forward_compat_example :
+  from_json VA cls_Capacities (Some (S"{""core"": 2, ""gpu_model"": ""A100"", ""to_json"": [1]}"))
+  = from_json VA cls_Capacities (Some (S"{""core"": 2}")).
+Proof. vm_compute. reflexivity. Qed.
 
 Lemma classes_ok_labels V : cls_ok V cls_Labels = true.
 Proof. reflexivity. Qed.
